@@ -8,10 +8,12 @@ import subprocess
 
 from . import engine
 
-GAIFN = os.path.join(engine.VERIF, "harness", "target", "gitai", "debug", "gaifn")
+GAIFN = os.environ.get("VERIF_GAIFN") or os.path.join(engine.VERIF, "harness", "target", "gitai", "debug", "gaifn")
 
 
 def build_gaifn():
+    if os.environ.get("VERIF_GAIFN"):        # dev: a driver built elsewhere (e.g. from a patched copy of the repository)
+        return GAIFN
     p = subprocess.run([os.path.join(engine.VERIF, "scripts", "build_rs.sh")], stdout=subprocess.PIPE,
                        stderr=subprocess.PIPE, text=True)
     if p.returncode != 0:
@@ -474,12 +476,12 @@ def argv_tags(beh):
 
 
 # --------------------------------------------------------------------------------------------------- C16 tracker
-TRK_FAMILIES = ["plain", "crlf", "nonl", "multibyte", "long", "blankfresh", "repeated", "punct", "combining"]
+TRK_FAMILIES = ["plain", "crlf", "nonl", "multibyte", "long", "blankfresh", "repeated", "punct", "combining", "uniws"]
 TRK_PRIORS = ["exact", "merged", "unsorted", "overlap", "oob", "zero", "offb"]
 AUTHOR_ID = {"H": "human", "A1": "A1", "A2": "A2"}
 
 
-def trk_content(u, fam, fresh):
+def trk_content(u, fam, fresh, wsvar=0):
     """-> list of (text, is_identity): identity words are unique to the line (they carry its uid); the rest
     (punctuation, emoji, combining marks) stresses the tokenizer and the byte arithmetic but is shared between
     lines, so the token-level diff may legitimately keep it with the old author of a replaced line"""
@@ -490,6 +492,12 @@ def trk_content(u, fam, fresh):
                 ("ß%dq" % u, True), (");", False)]
     if fam == "long":
         return [(("L%d_" % u) * 1500, True), (" ", False), ("end%d" % u, True)]
+    if fam == "uniws":
+        # non-ASCII white space between and after the words; the re-indented variant (ws = 1) of a line replaces it
+        # by plain blanks: a white-space-only reformat
+        seps = ["\u00a0", "\u3000", "\u2003"] if not wsvar else [" ", " ", ""]
+        return [("tok%da" % u, True), (seps[0], False), ("tok%db" % u, True), (seps[1], False), ("tok%dc" % u, True),
+                (seps[2], False)]
     if fam == "blankfresh" and fresh:
         return []
     if fam == "repeated" and fresh:
@@ -507,9 +515,11 @@ def trk_render(lines, fam, olduids, salt, is_new):
     idents = []
     pos = 0
     for i, (u, w) in enumerate(lines):
-        parts = trk_content(u, fam, bool(olduids) and u not in olduids)
+        parts = trk_content(u, fam, bool(olduids) and u not in olduids, w)
         ind = ["", "    ", "\t  "][w if w == 0 else 1 + salt % 2]
         trail = " " if (w and salt % 3 == 0) else ""
+        if fam == "uniws":
+            ind, trail = "", ""
         last = i == len(lines) - 1
         end = "" if (last and fam == "nonl" and (is_new or salt % 2 == 0)) else eol
         p = pos + len(ind.encode("utf-8"))
